@@ -80,9 +80,10 @@ class StarCraftAudioFilesMetadataIo:
         with wave.open(path_to_wav_file_on_disk, "rb") as wav_file:
             frames = wav_file.getnframes()
             rate = wav_file.getframerate()
-            duration = frames / float(rate)
-            duration_milliseconds = duration * 1000
-        return int(duration_milliseconds)
+            # integer arithmetic: float division loses a millisecond on some
+            # durations that are a whole number of milliseconds
+            duration_milliseconds = (frames * 1000) // rate
+        return duration_milliseconds
 
     @classmethod
     def _calculate_ogg_file_duration_ms(cls, path_to_ogg_file_on_disk: str) -> int:
